@@ -227,7 +227,7 @@ def run(tier, seed, replay=None):
         if rp['input'].get('entries'):
             progs[0]['entries'] = rp['input']['entries']
     else:
-        n = 24 if tier == 'quick' else 300
+        n = 24 if tier == 'quick' else 200
         progs = []
         cdir = '/verif/corpus/C12'
         for fn in sorted(os.listdir(cdir)) if os.path.isdir(cdir) else []:
@@ -243,7 +243,7 @@ def run(tier, seed, replay=None):
             else:
                 progs.append(gen_program(r, {'nfun': 6, 'depth': 3}))
     threads = [1, 2, 3, 8, 16] if tier == 'quick' else list(range(1, 17))
-    reps = 2 if tier == 'quick' else 4
+    reps = 2 if tier == 'quick' else 3
     ck.rule = ('programs (ill-typed multi-module sets for diagnostics, layout-focused and general accepted programs) x worker-thread '
                'counts %s x %d fresh processes each; distinct = distinct source set; non-trivial = diagnostics non-empty or program runs'
                % (threads, reps))
